@@ -115,6 +115,50 @@ func runC09(c *mon.Ctx) {
 						}
 					}
 					cmp("repeat", ac.state, ac.ev)
+					{
+						// the caller reads the power levels of the state's events, and the library's defaults, and edits what
+						// it got back (a room preset, a draft in a settings dialogue): what it got is its own copy - the
+						// events and the defaults judge as before
+						sender := string(ac.ev.SenderID())
+						for _, p := range ac.state {
+							if p.Type() != "m.room.power_levels" {
+								continue
+							}
+							if pl, err := p.PowerLevels(); err == nil && pl != nil {
+								if pl.Users != nil {
+									pl.Users[sender] = 1 << 40
+								}
+								if pl.Events != nil {
+									pl.Events["m.room.name"], pl.Events[ac.ev.Type()] = 0, 0
+								}
+								if pl.Notifications != nil {
+									pl.Notifications["room"] = 0
+								}
+								pl.StateDefault, pl.EventsDefault, pl.Ban, pl.Kick, pl.Invite = 0, 0, 0, 0, 0
+							}
+						}
+						var d0, d gmsl.PowerLevelContent
+						d0.Defaults()
+						defaultsBefore := fmt.Sprintf("%+v", d0)
+						d.Defaults()
+						defer func() {
+							var d2 gmsl.PowerLevelContent
+							d2.Defaults()
+							if after := fmt.Sprintf("%+v", d2); after != defaultsBefore {
+								c.Failf("defaults-changed-by-the-callers-edit-of-an-earlier-result", "PowerLevelContent.Defaults() gives %s after the caller edited what an earlier call had given it; before: %s", after, defaultsBefore)
+							}
+						}()
+						if d.Notifications != nil {
+							d.Notifications["room"] = 0
+						}
+						if d.Users != nil {
+							d.Users[sender] = 1 << 40
+						}
+						if d.Events != nil {
+							d.Events[ac.ev.Type()] = 0
+						}
+						cmp("caller-edits-what-the-accessors-returned", ac.state, ac.ev)
+					}
 					for i := 0; i < 3; i++ {
 						cmp("insertion-order", gen.Shuffled(mr, ac.state), ac.ev)
 					}
